@@ -1,0 +1,71 @@
+// Copyright 2020-2025 Buf Technologies, Inc.
+//
+// Licensed under the Apache License, Version 2.0 (the "License");
+// you may not use this file except in compliance with the License.
+// You may obtain a copy of the License at
+//
+//      http://www.apache.org/licenses/LICENSE-2.0
+//
+// Unless required by applicable law or agreed to in writing, software
+// distributed under the License is distributed on an "AS IS" BASIS,
+// WITHOUT WARRANTIES OR CONDITIONS OF ANY KIND, either express or implied.
+// See the License for the specific language governing permissions and
+// limitations under the License.
+
+//go:build verif
+package bufcli
+
+// Contracts for the gocv verifier (see /verif/DESIGN.md). Comment-only. (author ca-r4h)
+//
+// C09, wiring of the on-disk cache (cache.go).
+//
+// The documented versioned directory names, relative to the cache directory (package variables that are never assigned;
+// extracted from their initialisers on every run).
+//@ table rh_modulesDir {C09} of v3CacheModuleRelDirPath
+//@   ensures name: v3CacheModuleRelDirPath == normalpath.Join("v3", "modules")
+//@ table rh_moduleLocksDir {C09} of v3CacheModuleLockRelDirPath
+//@   ensures name: v3CacheModuleLockRelDirPath == normalpath.Join("v3", "modulelocks")
+//@ table rh_commitsDir {C09} of v3CacheCommitsRelDirPath
+//@   ensures name: v3CacheCommitsRelDirPath == normalpath.Join("v3", "commits")
+//
+// createCacheDir: the directory <base>/<rel> is stat'ed; it is created (with its parents) only when the stat says that it
+// does not exist, and a failing creation is returned (C15); any other stat error is returned as is; something that exists
+// but is not a directory is an error. Nothing else is touched.
+//@ func createCacheDir(baseCacheDirPath, relDirPath) (err)
+//@   property C09 C15
+//@   modifies ghost.fail, ghost.wfail, ghost.j_osStat, ghost.j_osWrite, ghost.rh_cacheStatErr, ghost.rh_cacheInfo
+//@   ghost after "fileInfo, err := os.Stat(fullDirPath)" rh_cacheStatErr := err
+//@   ghost after "fileInfo, err := os.Stat(fullDirPath)" rh_cacheInfo := fileInfo
+//@   ensures stats-the-joined-path: ghost.j_osStat == add(old(ghost.j_osStat), filepath.Join(normalpath.Unnormalize(baseCacheDirPath), normalpath.Unnormalize(relDirPath)))
+//@   ensures creates-only-when-missing: ghost.j_osWrite != old(ghost.j_osWrite) ==> ghost.rh_cacheStatErr != nil && errors.Is(ghost.rh_cacheStatErr, fs.ErrNotExist) && ghost.j_osWrite == add(old(ghost.j_osWrite), filepath.Join(normalpath.Unnormalize(baseCacheDirPath), normalpath.Unnormalize(relDirPath)))
+//@   ensures missing-is-created: ghost.rh_cacheStatErr != nil && errors.Is(ghost.rh_cacheStatErr, fs.ErrNotExist) ==> filepath.Join(normalpath.Unnormalize(baseCacheDirPath), normalpath.Unnormalize(relDirPath)) in ghost.j_osWrite
+//@   ensures creation-failure-reported {C15}: ghost.wfail && !old(ghost.wfail) ==> err != nil
+//@   ensures other-stat-error-returned: ghost.rh_cacheStatErr != nil && !errors.Is(ghost.rh_cacheStatErr, fs.ErrNotExist) ==> err == ghost.rh_cacheStatErr
+//@   ensures non-directory-refused: ghost.rh_cacheStatErr == nil && !ghost.rh_cacheInfo.IsDir() ==> err != nil
+//@   canary ensures err == nil
+//@   canary ensures err != nil
+//
+// newModuleDataProvider: "while creating the required cache directories". The module data bucket is opened on
+// <cache dir>/v3/modules and the file locker on <cache dir>/v3/modulelocks, each after createCacheDir has stat'ed / created
+// exactly that directory; the two are distinct directories, neither inside the other (lemma rh_cache-dir-names), so lock
+// files and module data never share a path. A failing directory creation is returned (C15). No symlinks are followed
+// inside the cache (provider without options).
+//@ func newModuleDataProvider(container, moduleClientProvider, ownerClientProvider) (r, err)
+//@   property C09 C15
+//@   modifies heap, ghost.fail, ghost.wfail, ghost.j_osStat, ghost.j_osWrite, ghost.d2_follow, ghost.v_osRoots, ghost.rh_cacheStatErr, ghost.rh_cacheInfo, ghost.rh_rootStatErr, ghost.rh_rootInfo
+//@   ensures creation-failure-reported {C15}: ghost.wfail && !old(ghost.wfail) ==> err != nil
+//@   ensures provider-or-error: err == nil ==> r != nil
+//@   assert before "cacheBucket, err := storageosProvider.NewReadWriteBucket(fullCacheDirPath)" data-dir-is-versioned-subdir: fullCacheDirPath == normalpath.Join(container.CacheDirPath(), v3CacheModuleRelDirPath) && filepath.Join(normalpath.Unnormalize(container.CacheDirPath()), normalpath.Unnormalize(v3CacheModuleRelDirPath)) in ghost.j_osStat
+//@   assert before "return bufmodulecache.NewModuleDataProvider(" locker-rooted-at-lock-dir: filelocker != nil && typeOf(filelocker) == typeId(*filelock.locker) && cast(*filelock.locker, filelocker).rootDirPath == normalpath.Normalize(normalpath.Join(container.CacheDirPath(), v3CacheModuleLockRelDirPath))
+//@   assert before "return bufmodulecache.NewModuleDataProvider(" lock-dir-created-or-checked: filepath.Join(normalpath.Unnormalize(container.CacheDirPath()), normalpath.Unnormalize(v3CacheModuleLockRelDirPath)) in ghost.j_osStat
+//@   assert before "return bufmodulecache.NewModuleDataProvider(" bucket-opened: cacheBucket != nil
+//@   canary ensures err == nil
+//@   canary ensures err != nil
+//
+//@ func newCommitProvider(container, moduleClientProvider, ownerClientProvider) (r, err)
+//@   property C09 C15
+//@   modifies heap, ghost.fail, ghost.wfail, ghost.j_osStat, ghost.j_osWrite, ghost.d2_follow, ghost.v_osRoots, ghost.rh_cacheStatErr, ghost.rh_cacheInfo
+//@   ensures creation-failure-reported {C15}: ghost.wfail && !old(ghost.wfail) ==> err != nil
+//@   ensures provider-or-error: err == nil ==> r != nil
+//@   assert before "cacheBucket, err := storageosProvider.NewReadWriteBucket(fullCacheDirPath)" commit-dir-is-versioned-subdir: fullCacheDirPath == normalpath.Join(container.CacheDirPath(), v3CacheCommitsRelDirPath) && filepath.Join(normalpath.Unnormalize(container.CacheDirPath()), normalpath.Unnormalize(v3CacheCommitsRelDirPath)) in ghost.j_osStat
+//@   canary ensures err == nil
